@@ -282,3 +282,20 @@ def is_f64(a):
 
 def same_len(a, b):
     return len(a) == len(b)
+
+
+def Union(*ts):
+    return T("OneOfT", *ts)
+
+
+def nan_at(m, r, c):
+    import math
+    return math.isnan(float(m[r][c]))
+
+
+def same_object(a, b):
+    return a is b
+
+
+def ncols(m):
+    return m.shape[1]
